@@ -17,7 +17,11 @@ LEVEL = 'proof'
 TIE = {'HighestAverages.evaluate': 'correspondence (stream ha-tie, model shared with C01)',
        'component/divisor.py': 'translator (GenTie_Divisor.v, obligation of C01) + strictness lemmas Props/C17.v C17_builtin_strict',
        'convert.* additive folds, core.get_n_best': 'models shared with C13 / C09 (correspondence there); relational clauses on the implementation here',
-       'condorcet.Copeland/MinimaxCondorcet/Schulze': 'relational clauses on the implementation only',
+       'condorcet.Copeland/MinimaxCondorcet/Schulze': 'models of C05 (Model/Condorcet.v, correspondence there); relational clauses on the implementation here',
+       'convert.RankedToCondorcetVotes.convert': 'correspondence (stream rc-tie against Model/Hybrids.v pairwise, unit C05+2; theorems C17_ballot_pairwise_exact, '
+                                                 'C17_ballot_raises, C17_copeland_ballots, C17_minimax_ballots) + the exact delta evaluated on the implementation (stream rc-move-exact)',
+       'component/rankscore.py': 'translator (GenTie_Rankscore.v, obligation of C13) + C17_gen_scorers_nonincreasing on the generated expressions; '
+                                 'rank_scores model shared with C13 (correspondence there); stream scorer-nonincreasing on the implementation',
        'sequential.PreferenceAddition.evaluate (+ _decouple_equal_rankings, _add_round_votes, Tie.reconcile)':
            'correspondence (streams pa-exhaustive-small, pa-random against Model/Bucklin.v; theorems C17_bucklin, C17_oklahoma, C17_preference_addition*)'}
 RULE = ('ha-tie: C01 generators (random, constructed quotient ties, zero-vote/caps) against the model. house: every such case and the '
@@ -28,17 +32,24 @@ RULE = ('ha-tie: C01 generators (random, constructed quotient ties, zero-vote/ca
         'upward move of w (one place up, to the top; approve w; raise w\'s score) and every added ballot ranking w first (a bullet vote for all rules; '
         'also longer ballots for the additive rules and Oklahoma) must again give [w]. pa-*: PreferenceAddition.evaluate against the model on random / small exhaustive '
         'ranked profiles (truncation, shared ranks, 6 coefficient specs incl. an empty list, split on/off, 1..4 seats). sole-winner-shared-ranks: Bucklin / Oklahoma, every upward move of '
-        'the sole winner on a ballot WITH shared ranks (to a higher place; out of a shared rank to a place of its own). non-trivial = a tie in either result / '
+        'the sole winner on a ballot WITH shared ranks (to a higher place; out of a shared rank to a place of its own). rc-tie: RankedToCondorcetVotes.convert against the model '
+        '(profiles with shared ranks, truncation, zero weights, and their moved copies). rc-move-exact: on the implementation, moving a candidate up on x units of one ballot changes the '
+        'pairwise dictionary exactly as C17_ballot_pairwise_exact says and keeps its candidates; a sole Copeland / minimax winner stays. scorer-nonincreasing: every built-in scorer on a small '
+        'exhaustive parameter domain returns n_ranked non-increasing scores. non-trivial = a tie in either result / '
         'a binding cap / previous gains (house, votes), or the move changes some candidate\'s standing (sole-winner); distinct by case hash')
 PARTIAL = ['Schulze sole-winner monotonicity: REFUTED for votelib\'s ranking by the number of path-wins (C17_schulze_refuted, witnesses C17_schulze_witness / '
            'C17_schulze_witness_loses, known finding C17-schulze-path-win-count, corpus/C17/schulze-winner-*.json); proved instead: the winner keeps every path-win, '
            'gets no path-defeat and its count does not drop (C17_schulze_partial)',
-           'Bucklin / Oklahoma with split shared ranks: proved when the CHANGED ballot has no shared rank (the others may); changed ballots with shared ranks are decided per explored case '
-           '(stream sole-winner-shared-ranks) - refuted for the code as written when the ballot has two or more shared ranks (C17_bucklin_shared_refuted, known finding C17-bucklin-splice-offset)',
+           'Bucklin / Oklahoma with split shared ranks: proved for the repaired splicing loop also when the CHANGED ballot has shared ranks and the winner, on a rank of its own, moves up past '
+           'plain or shared ranks (C17_bucklin_shared, C17_oklahoma_shared, C17_preference_addition_shared; refuted for the loop as written: C17_bucklin_shared_refuted, finding '
+           'C17-bucklin-splice-offset, fixed); the move of the winner OUT OF a shared rank to a place of its own is decided per explored case (stream sole-winner-shared-ranks; the general '
+           'theorem C17_preference_addition_split_general reduces it to an inequality between means over the variants)',
            'Bucklin with a new ballot that ranks further candidates below the winner: refuted (C17_bucklin_added_full_refuted, the participation failure of Bucklin); proved for the bullet vote and for any such ballot under Oklahoma',
            'vote monotonicity with zero-vote parties or when the larger run ends in a tie or with caps exhausted: relational checker only',
-           'positional rules: C17_positional needs the scorer to be non-increasing at the two places; proved for Dowdall, modified Borda and '
-           'fixed top, checked per case for Borda, geometric and sequence-based scorers']
+           'positional rules: proved for every built-in scorer that is non-increasing along the ballot - all of Borda, Dowdall, modified Borda, fixed top; Geometric with base >= 1; '
+           'SequenceBased with a non-increasing sequence ending non-negative (C17_scorer_ok, C17_positional_any); refuted otherwise (C17_scorers_conditions_needed); ballots of plain ranks',
+           'Copeland / minimax on ballots: proved through the converter model for a winner on a rank of its own moving up (C17_copeland_ballots, C17_minimax_ballots); adding a ballot and '
+           'leaving a shared rank are checker-decided']
 TRUSTED = []
 ASSUMPTIONS = ['a "single ballot" is one unit of weight of one ballot type of the profile dictionary']
 
@@ -791,6 +802,69 @@ def rc_streams(ctx, count, rng):
     ctx.differential('rc-tie', ties, c05.hyb_line, c05.hyb_impl, canon=c05.hyb_canon, nontrivial=lambda c: True)
 
 
+# ------------------------------------------------------------------ rank scorers: non-increasing along the ballot (C17_scorer_ok on the implementation)
+def scorer_cases(rng, extra):
+    for base in range(-2, 4):
+        for n in range(1, 9):
+            for k in range(0, n + 1):
+                yield dict(kind='scorer', scorer=['borda', base], n_cands=n, n_ranked=k)
+    for k in range(0, 13):
+        yield dict(kind='scorer', scorer=['dowdall'], n_cands=k, n_ranked=k)
+        yield dict(kind='scorer', scorer=['modified_borda'], n_cands=k, n_ranked=k)
+        for base in range(1, 7):
+            yield dict(kind='scorer', scorer=['geometric', base], n_cands=k, n_ranked=k)
+        for top in range(-1, 9):
+            yield dict(kind='scorer', scorer=['fixed_top', top], n_cands=k, n_ranked=k)
+    for _ in range(extra):
+        sq = sorted([rng.choice([rng.randint(0, 12), jq(Fraction(rng.randint(0, 20), rng.randint(1, 4)))]) for _ in range(rng.randint(0, 6))],
+                    key=q, reverse=True)
+        yield dict(kind='scorer', scorer=['sequence', sq], n_cands=9, n_ranked=rng.randint(0, 9))
+
+
+def scorer_check(ctx, stream, c):
+    import votelib.component.rankscore as rs
+    sp = c['scorer']
+
+    def make():
+        if sp[0] == 'borda':
+            o = rs.Borda(base=sp[1])
+            o.set_n_candidates(c['n_cands'])
+            return o
+        if sp[0] == 'sequence':
+            return rs.SequenceBased([int(q(x)) if q(x).denominator == 1 else q(x) for x in sp[1]])
+        return dict(dowdall=lambda: rs.Dowdall(), modified_borda=lambda: rs.ModifiedBorda(), geometric=lambda: rs.Geometric(sp[1]),
+                    fixed_top=lambda: rs.FixedTop(sp[1]))[sp[0]]()
+    r = common.call_impl(lambda: list(make().scores(c['n_ranked'])), 5)
+    why = None
+    if r[0] != 'ok':
+        why = 'scores(%d) failed: %s' % (c['n_ranked'], r[1:])
+    elif len(r[1]) != c['n_ranked']:
+        why = '%d scores for %d ranks' % (len(r[1]), c['n_ranked'])
+    else:
+        for i in range(len(r[1]) - 1):
+            if not r[1][i + 1] <= r[1][i]:
+                why = 'score of rank %d (%s) exceeds the score of rank %d (%s)' % (i + 1, r[1][i + 1], i, r[1][i])
+                break
+    if why:
+        ctx.checker_false += 1
+        ctx.report(stream, c, str(r[1:]), 'n/a', 'rank scorer %s: %s' % (sp, why))
+        return True
+    return False
+
+
+def scorer_stream(ctx, rng):
+    n = bad = 0
+    for c in scorer_cases(rng, ctx.n(300, 3000)):
+        n += 1
+        ctx.evaluations += 1
+        ctx.dist['stream:scorer-nonincreasing'] += 1
+        if c['n_ranked'] >= 2:
+            ctx.nontrivial.add(common.case_hash(c))
+        if scorer_check(ctx, 'scorer-nonincreasing', c):
+            bad += 1
+    ctx.streams['scorer-nonincreasing'] = dict(cases=n, deviations=bad)
+
+
 def corpus():
     import os, json, glob
     for p in sorted(glob.glob(os.path.join(common.VERIF, 'corpus', ID, '*.json'))):
@@ -837,6 +911,9 @@ def run_corpus_case(ctx, c, stream='corpus'):
     elif k == 'rc-move':
         ctx.evaluations += 1
         rc_move_check(ctx, stream, c)
+    elif k == 'scorer':
+        ctx.evaluations += 1
+        scorer_check(ctx, stream, c)
     elif c.get('unit') == 'hybrid':
         ctx.differential(stream, [c], c05.hyb_line, c05.hyb_impl, canon=c05.hyb_canon, nontrivial=lambda c: True)
     elif c.get('unit') == 'preference_addition':
@@ -871,6 +948,7 @@ def explore(ctx, widen=1):
     sole_winner_shared(ctx, 'sole-winner-shared-ranks', ctx.n(2500, 30000) * widen, rng)
     sole_winner_cardinal(ctx, 'sole-winner-cardinal', ctx.n(1500, 15000) * widen, rng)
     rc_streams(ctx, ctx.n(2500, 30000) * widen, rng)
+    scorer_stream(ctx, rng)
 
 
 def replay(ctx, case, stream=None):
